@@ -19,23 +19,27 @@ type c16Event struct {
 
 var c16Events = []c16Event{{"adv", 0.2}, {"adv", 0.5}, {"adv", 0.8}, {"adv", 1.0}, {"adv", 1.2}, {"send1", 0}, {"sendcmd", 0}, {"sendhalf", 0}, {"sendrest", 0}}
 
-func c16Script() []Req {
+func c16Script(allow bool) []Req {
+	if allow {
+		// writing enabled: the payload of an accepted upload is received through the transfer copier
+		return []Req{mkReq(opCreateFile, "/w/up.bin"), wrReq(patBytes(4, 0, 1000)), mkReq(opStatFile, "/a.txt"), wrReq([]byte("0123456789"))}
+	}
 	return []Req{mkReq(opStatFile, "/a.txt"), mkReq(opOpenFile, "/f.bin"), wrReq([]byte("0123456789")), mkReq(opOpenDir, "/")}
 }
 
 // c16Run executes one event sequence; returns the index of the event at which the connection was closed (-1 = never)
 // and a violation text.
-func c16Run(t *testing.T, root string, T time.Duration, seq []int) (closedAtStep int, why string, trace []string) {
+func c16Run(t *testing.T, root string, T time.Duration, seq []int, allow bool) (closedAtStep int, why string, trace []string) {
 	closedAtStep = -1
 	synctest.Test(t, func(t *testing.T) {
 		leaf := newVFs(afero.NewOsFs(), "leaf")
 		leaf.record = false
-		s := startSrv(SrvOpts{Root: root, Timeout: T, LeafWrap: func(afero.Fs) afero.Fs { return leaf }})
+		s := startSrv(SrvOpts{Root: root, Timeout: T, AllowWrite: allow, LeafWrap: func(afero.Fs) afero.Fs { return leaf }})
 		start := time.Now()
 		c := s.Dial(nil)
 		synctest.Wait()
-		m := newModel(root, false)
-		script := c16Script()
+		m := newModel(root, allow)
+		script := c16Script(allow)
 		ri := 0            // current request
 		delivered := 0     // bytes of the current request delivered
 		waitStart := start // instant the server started waiting for the current request
@@ -238,7 +242,7 @@ func c16DrainRun(t *testing.T, root string, T time.Duration, seq []int, want []b
 func TestC16(t *testing.T) {
 	r := NewReporter(t)
 	defer r.Done()
-	r.Rule("T in {100 ms, 1 s, 10 min} x all event sequences of length <= depth over {advance 0.2T,0.5T,0.8T,1.0T,1.2T; deliver 1 byte; deliver rest of the 16-byte command; deliver half of the rest; deliver rest of request} over a cyclic script {Stat, OpenFile, WriteFile+payload, OpenDir}; sequences are cut at the first close; oracle: close at exactly (instant the server started waiting for the current request)+T iff the request is incomplete then, never earlier or later; completed requests answered; handle ledger empty after the cut; slow-drain family: all sequences over {advance 0.3T/0.55T, issue 40000-byte critical read, take 4096 bytes, take all} through a 4096-byte send buffer with write deadlines modelled, never cut while requests are < T apart; distinct by (T, executed event prefix)")
+	r.Rule("T in {100 ms, 1 s, 10 min} x all event sequences of length <= depth over {advance 0.2T,0.5T,0.8T,1.0T,1.2T; deliver 1 byte; deliver rest of the 16-byte command; deliver half of the rest; deliver rest of request} over a cyclic script {Stat, OpenFile, WriteFile+payload (refused), OpenDir} and, with writing enabled, {CreateFile, WriteFile+1000-byte payload, Stat, WriteFile+10 bytes}; sequences are cut at the first close; oracle: close at exactly (instant the server started waiting for the current request)+T iff the request is incomplete then, never earlier or later; completed requests answered; handle ledger empty after the cut; slow-drain family: all sequences over {advance 0.3T/0.55T, issue 40000-byte critical read, take 4096 bytes, take all} through a 4096-byte send buffer with write deadlines modelled, never cut while requests are < T apart; distinct by (T, executed event prefix)")
 	w := newWorld(t, "srv/root")
 	defer w.Cleanup()
 	w.File("a.txt", 10, 1)
@@ -272,7 +276,7 @@ func TestC16(t *testing.T) {
 					seq[k] = x % ne
 					x /= ne
 				}
-				closedAt, why, trace := c16Run(t, w.Root, T, seq)
+				closedAt, why, trace := c16Run(t, w.Root, T, seq, false)
 				executed := depth
 				if closedAt >= 0 {
 					executed = closedAt + 1
@@ -325,7 +329,7 @@ func TestC16(t *testing.T) {
 				continue
 			}
 			seq := longSeq(frac, 60)
-			closedAt, why, trace := c16Run(t, w.Root, T, seq)
+			closedAt, why, trace := c16Run(t, w.Root, T, seq, false)
 			r.Transition(int64(len(seq)))
 			key := sprintf("long|%v|frac%d", T, frac)
 			r.State(key)
@@ -343,6 +347,68 @@ func TestC16(t *testing.T) {
 				r.Violation("C16:"+sg, sprintf("T=%v long run with spacing %.1fT: %s", T, c16Events[frac].Frac, msg), map[string]any{"T": T.String(), "trace_tail": trace[max(0, len(trace)-6):]})
 			} else {
 				r.Outcome(sprintf("long-run-spacing-%.1fT-ok", c16Events[frac].Frac))
+			}
+		}
+	}
+	// writing enabled: the same event alphabet over a script whose uploads are accepted (create, 1000-byte payload,
+	// stat, 10-byte payload) - a stall in the middle of a payload is cut like any other incomplete request
+	w.MkDir("w")
+	wdepth := 5
+	if r.Thorough() {
+		wdepth = 6
+	}
+	for ti, T := range []time.Duration{100 * time.Millisecond, 10 * time.Minute} {
+		total := 1
+		for i := 0; i < wdepth; i++ {
+			total *= ne
+		}
+		for idx := 0; idx < total; {
+			seq := make([]int, wdepth)
+			x := idx
+			for k := wdepth - 1; k >= 0; k-- {
+				seq[k] = x % ne
+				x /= ne
+			}
+			if !r.Mine(3000 + ti*ne*ne + seq[0]*ne + seq[1]) {
+				blk := total / (ne * ne)
+				idx = (idx/blk + 1) * blk
+				continue
+			}
+			if r.TimeUp() {
+				return
+			}
+			closedAt, why, trace := c16Run(t, w.Root, T, seq, true)
+			executed := wdepth
+			if closedAt >= 0 {
+				executed = closedAt + 1
+			}
+			r.Transition(int64(executed))
+			r.Eval(1)
+			key := sprintf("upload|%v|%v", T, seq[:executed])
+			r.State(key)
+			r.Nontrivial(key)
+			if closedAt >= 0 {
+				r.Outcome(sprintf("upload:cut-at-deadline(step %d)", closedAt))
+			} else {
+				r.Outcome("upload:never-cut")
+			}
+			if why != "" {
+				var evs []c16Event
+				for _, e := range seq[:executed] {
+					evs = append(evs, c16Events[e])
+				}
+				r.Outcome("VIOLATION")
+				sg, msg, _ := strings.Cut(why, "|")
+				r.Violation("C16:upload:"+sg, sprintf("T=%v writing enabled, events=%v: %s", T, evs, msg), map[string]any{"T": T.String(), "events": evs, "trace": trace})
+			}
+			if executed < wdepth {
+				blk := 1
+				for i := 0; i < wdepth-executed; i++ {
+					blk *= ne
+				}
+				idx = (idx/blk + 1) * blk
+			} else {
+				idx++
 			}
 		}
 	}
